@@ -7,5 +7,8 @@ CONSTANTS Links = {3, 8}
   Ver = 7
   Running = TRUE
   Its = TRUE
+  Faults = FALSE
+  Ob = FALSE
 INVARIANTS NoFalseAlarm Dump
+
 CHECK_DEADLOCK FALSE
